@@ -460,3 +460,51 @@ def scripted_stream(ck, qr, numpy, m):
                 ck.fail("script:bookkeeping", "bookkeeping not restored after a scripted program", inp)
                 m.basis_stack[:] = [0]; m.basis_transformations[:] = [1]; m.basis_registered.clear()
                 m._in_eigenbasis_of_context = False; m.current_basis_operator = None
+    # ---- a construction that the library refuses inside a context (the caller catches the refusal and goes on): the context is still
+    # left cleanly, every other object comes back, the bookkeeping is restored
+    from quantarhei.qm.liouvillespace.superoperator import SuperOperator
+    refusals = (("Operator(non-square data)", lambda: Operator(data=numpy.zeros((2, 3)))),
+                ("SelfAdjointOperator(not self-adjoint)", lambda: SelfAdjointOperator(data=numpy.array([[0.0, 1.0, 0.0], [2.0, 0.0, 0.0], [0.0, 0.0, 1.0]]))),
+                ("SuperOperator(3-index data)", lambda: SuperOperator(data=numpy.zeros((3, 3, 3)))),
+                ("Operator(data, wrong dim)", lambda: Operator(dim=4, data=numpy.zeros((3, 3)))),
+                ("ReducedDensityMatrix(non-square data)", lambda: ReducedDensityMatrix(data=numpy.zeros((3, 2)))))
+    for depth in (1, 2):
+        for rname, bad_ctor in refusals:
+            c1, c2 = SelfAdjointOperator(data=symm() + numpy.diag([0.0, 1.0, 2.5])), Hamiltonian(data=symm() + numpy.diag([0.0, 2.0, 3.0]))
+            a0, b0 = symm(), symm()
+            A, B = Operator(data=a0.copy()), ReducedDensityMatrix(data=b0.copy())
+            inp = {"script": "a refused construction inside the context, caught by the caller", "refused": rname, "nesting": depth}
+            refused = None
+            try:
+                with eigenbasis_of(c1):
+                    A.data
+                    if depth == 2:
+                        with eigenbasis_of(c2):
+                            B.data
+                            try:
+                                bad_ctor(); refused = False
+                            except Exception:
+                                refused = True
+                            tr_in = float(numpy.trace(numpy.array(A.data) @ numpy.array(B.data)).real)
+                    else:
+                        try:
+                            bad_ctor(); refused = False
+                        except Exception:
+                            refused = True
+                        tr_in = float(numpy.trace(numpy.array(A.data) @ numpy.array(B.data)).real)
+                    after_made = Operator(data=symm())
+            except Exception as e:
+                ck.fail("script:refused-construction:exit", "leaving the context after a refused construction raised %r" % (e,), inp)
+            ck.case(("script-refused", rname, depth), nontrivial=True, kind="scripted", cls="refused:" + rname.split("(")[0], nesting=depth)
+            if refused is False:
+                ck.extra.setdefault("constructions_not_refused", []).append(rname)
+            dva = float(numpy.abs(numpy.asarray(A._data) - a0).max()); dvb = float(numpy.abs(numpy.asarray(B._data) - b0).max())
+            if dva > 1e-9 or dvb > 1e-9 or A.get_current_basis() != 0 or B.get_current_basis() != 0:
+                ck.fail("script:refused-construction:restore", "objects are not back in their original representation after a context in which a "
+                        "construction was refused", inp, [dva, dvb])
+            if len(m.basis_stack) != 1 or m.basis_registered or m.current_basis_operator is not None:
+                ck.fail("script:refused-construction:bookkeeping", "bookkeeping not restored after a context in which a construction was refused", inp,
+                        [list(m.basis_stack), sorted(m.basis_registered), m.current_basis_operator is not None])
+                m.basis_stack[:] = [0]; m.basis_transformations[:] = [1]; m.basis_registered.clear()
+                m._in_eigenbasis_of_context = False; m.current_basis_operator = None
+
